@@ -30,7 +30,7 @@ SCOPE = {
     #  sub-cases of pool set 2 / existing state 3, dropping them keeps the closed model at ~60 %)
     "thorough": dict(mc="NPods = 2  PodArchs = {1,2,3,4,5,6,7,8,9,10,11,12,13}  Catalogs = {2,3,4,5}  PoolSets = {2,3,4,5}  Existings = {0,4,5}  Daemons = {0,2,3}",
                      gen="NPods = 2  PodArchs = {1,2,3,4,5,6,7,8,9,10,11,12,13}  Catalogs = {2,3,4,5,6}  PoolSets = {1,2,3,4,5}  Existings = {0,1,2,3,4,5}  Daemons = {0,1,2,3}",
-                     mc3="NPods = 3  PodArchs = {2,4,9,11,13}  Catalogs = {2,5}  PoolSets = {3,5}  Existings = {4,5}  Daemons = {1,3}",
+                     mc3="NPods = 3  PodArchs = {2,4,9,11,13}  Catalogs = {2,5}  PoolSets = {3,5}  Existings = {5}  Daemons = {1,3}",
                      gen3="NPods = 3  PodArchs = {2,4,5,8,9,11,12,13}  Catalogs = {2,5}  PoolSets = {1,3,5}  Existings = {4,5}  Daemons = {1,3}",
                      replay=None, explore={"basic": 4000, "interpod": 1000, "reserved": 1000}, mc_workers=None),
 }
